@@ -5,7 +5,7 @@ from hypothesis import strategies as st
 
 from vf import gen, ruleforms, speccheck
 from vf.oracles import brute
-from vf.runner import SubCheck, describe_exc
+from vf.runner import SubCheck, Violation, describe_exc
 from vf.scenario import run_search, scenario_context
 from vf.universe import words as U
 
@@ -50,6 +50,24 @@ def run_spec(case, ctx):
         )
         if has_lazy_empty:
             ctx.label("lazy-empty-rule")
+        # first a class of the SAME NAME from another module goes through JSON (the
+        # order of loads must not matter: whatever was loaded before, the next load
+        # gives back an equal object)
+        from comb_spec_searcher import CombinatorialClass
+
+        mode = int(case.get("compressed", 0) or 0)
+        other = U.build_class(start.key(), compressed={0: 4, 1: 5, 4: 0, 5: 1}.get(mode, 4))
+        try:
+            other2 = roundtrip(other, CombinatorialClass.from_dict)
+            ctx.check(
+                other2 == other and type(other2) is type(other),
+                "class-roundtrip",
+                f"class {other!r} of {type(other).__module__} came back as {other2!r} of {type(other2).__module__}",
+            )
+        except Violation:
+            raise
+        except Exception as e:
+            ctx.fail("class-roundtrip", f"class round trip raised {describe_exc(e)}", "class-roundtrip/raises")
         try:
             spec2 = roundtrip(spec, CombinatorialSpecification.from_dict)
         except Exception as e:
